@@ -143,7 +143,7 @@ func exhaustiveOver(run *kit.Run, l limits, maxLen int, alphabet string) {
 var pieces = []string{"/", "a", "ab", "{x}", "{yy}", "*{w}", "*{zz}", ".", "-", "com", "{", "}", "*", "a.b", "{a}.", "x{p}", "v1", "id:", "_", "1", "A", "%", "é", "//", "{a/b}", "{a*}", "{a{b}}", "*{a}/*{b}", "{a}/{b}"}
 
 func random(run *kit.Run) {
-	n := run.Pick(50000, 2000000)
+	n := run.Pick(50000, 5000000)
 	const per = 5000
 	run.Parallel(n/per, func(b int) {
 		r := run.Rand(uint64(100 + b))
